@@ -41,6 +41,7 @@ type evSeq struct {
 
 type evSub struct {
 	lossy, mask bool
+	incl        bool // WithInclude(percentage is even): include converts / drops events (new objects), not part of the tie answers
 	pace        string // backpressure: "drain"; lossy: "stalled" | "slow" | "drain"
 	ch          <-chan *resource.CollectionChange
 	cancel      context.CancelFunc
@@ -57,6 +58,9 @@ func (s *evSub) kind() string {
 	}
 	if s.mask {
 		k += "+mask"
+	}
+	if s.incl {
+		k += "+include"
 	}
 	return k
 }
@@ -121,13 +125,19 @@ func runEventSeq(es evSeq, tie *lib.Tie, mon *lib.Monitor, drv *lib.Driver) {
 		tr.observe(origin+"/event.OldValue", e.OldValue)
 		tr.observe(origin+"/event.NewValue", e.NewValue)
 	}
-	open := func(lossy, mask bool, pace string) {
+	open := func(lossy, mask bool, pace string, incl bool) {
 		ctx, cancel := context.WithCancel(context.Background())
 		opts := []resource.ReadOption{resource.WithBackpressure(!lossy), resource.WithUpdatesOnly(true)}
+		if incl {
+			opts = append(opts, resource.WithInclude(func(id string, item proto.Message) bool {
+				f, ok := item.(*traits.FanSpeed)
+				return ok && f != nil && int(f.Percentage)%2 == 0
+			}))
+		}
 		if mask {
 			opts = append(opts, resource.WithReadMask(&fieldmaskpb.FieldMask{Paths: []string{"percentage"}}))
 		}
-		s := &evSub{lossy: lossy, mask: mask, pace: pace, cancel: cancel, since: writes}
+		s := &evSub{lossy: lossy, mask: mask, pace: pace, incl: incl, cancel: cancel, since: writes}
 		s.ch = coll.Pull(ctx, opts...)
 		i := len(subs)
 		subs = append(subs, s)
@@ -202,17 +212,22 @@ func runEventSeq(es evSeq, tie *lib.Tie, mon *lib.Monitor, drv *lib.Driver) {
 	// initial subscribers: 1-2 unmasked backpressure, 0-1 masked backpressure, 0-2 lossy
 	nb := 1 + r.Intn(2)
 	for i := 0; i < nb; i++ {
-		open(false, false, "drain")
+		open(false, false, "drain", false)
 		lines, code = append(lines, "ev sub 0 0"), append(code, "ok")
 	}
 	if r.Intn(2) == 0 {
-		open(false, true, "drain")
+		open(false, true, "drain", false)
 		lines, code = append(lines, "ev sub 0 1"), append(code, "ok")
 	}
 	for i, n := 0, r.Intn(3); i < n; i++ {
 		mask := r.Intn(3) == 0
-		open(true, mask, []string{"stalled", "stalled", "slow", "drain"}[r.Intn(4)])
+		open(true, mask, []string{"stalled", "stalled", "slow", "drain"}[r.Intn(4)], false)
 		lines, code = append(lines, fmt.Sprintf("ev sub 1 %d", b2i(mask))), append(code, "ok")
+	}
+	// subscribers with an include filter (monitor only: the model has no include stage, and they are invisible to the others)
+	for i, n := 0, r.Intn(3); i < n; i++ {
+		lossy := r.Intn(3) == 0
+		open(lossy, r.Intn(3) == 0, "drain", true)
 	}
 	var wrong [][3]string
 	state := map[int]int{} // the harness's own view of the collection: id -> token (plain map, independent of model and code)
@@ -255,7 +270,7 @@ func runEventSeq(es evSeq, tie *lib.Tie, mon *lib.Monitor, drv *lib.Driver) {
 			if lossy {
 				pace = []string{"stalled", "slow", "drain"}[r.Intn(3)]
 			}
-			open(lossy, mask, pace)
+			open(lossy, mask, pace, false)
 			lines, code = append(lines, fmt.Sprintf("ev sub %d %d", b2i(lossy), b2i(mask))), append(code, "ok")
 			mon.Count("op:Pull(" + subs[len(subs)-1].kind() + ")")
 			continue
@@ -274,7 +289,7 @@ func runEventSeq(es evSeq, tie *lib.Tie, mon *lib.Monitor, drv *lib.Driver) {
 		// every backpressure subscriber receives exactly one event per write (no include, no equivalence)
 		parts := []string{"ok"}
 		for i, s := range subs {
-			if s.lossy {
+			if s.lossy || s.incl {
 				continue
 			}
 			want := writes - s.since
